@@ -288,6 +288,84 @@ func init() {
 					d := map[string]interface{}{"cloner": cl.name, "rpc": "unary with " + shape + " messages; the handler changes its request in place and returns a cached response", "isolated": iso, "destination_overwritten": ow, "error": fmt.Sprint(err)}
 					o.Case("unary_flat_"+shape+"_"+cl.name, fmt.Sprintf("Iso %d %s false %s %s", ci, hx.Str("unary, "+shape), hx.B(iso), hx.B(ow)), d)
 				}
+				// ---------- a method handler that RECYCLES its request object (a pool, or defaults filled in before
+				// decoding): decoding the request is a receive like any other and overwrites what the object held ----------
+				{
+					recycled := &hx.Msg{}
+					var seenReq []*hx.Msg
+					rd := &grpc.ServiceDesc{ServiceName: "pool.Svc", HandlerType: (*hx.SvcIface)(nil), Methods: []grpc.MethodDesc{{MethodName: "U",
+						Handler: func(srv interface{}, ctx context.Context, dec func(interface{}) error, _ grpc.UnaryServerInterceptor) (interface{}, error) {
+							if err := dec(recycled); err != nil {
+								return nil, err
+							}
+							seenReq = append(seenReq, proto.Clone(recycled).(*hx.Msg))
+							return &hx.Msg{}, nil
+						}}}}
+					rch := (&inprocgrpc.Channel{}).WithCloner(cl.mk())
+					rch.RegisterService(rd, &hx.Svc{})
+					reqs := []*hx.Msg{mkMsg(false), {Count: 5}, {Headers: map[string][]byte{"only": []byte("this")}}, {}}
+					ow := true
+					var rerr error
+					for i, rq := range reqs {
+						if rerr = rch.Invoke(context.Background(), "/pool.Svc/U", rq, &hx.Msg{}); rerr != nil || len(seenReq) != i+1 || !proto.Equal(seenReq[i], rq) {
+							ow = false
+							break
+						}
+					}
+					d := map[string]interface{}{"cloner": cl.name, "rpc": "unary, four calls; the method handler decodes every request into the same recycled message", "destination_overwritten": ow, "error": fmt.Sprint(rerr), "handler_saw": fmt.Sprint(seenReq)}
+					o.Case("unary_recycled_request_"+cl.name, fmt.Sprintf("Iso %d %s false true %s", ci, hx.Str("unary, recycled request object"), hx.B(ow)), d)
+				}
+				// ---------- a codec cloner around a codec whose Marshal result ALIASES the message (a pass-through codec for
+				// pre-encoded payloads: legal for a gRPC codec): a sender that reuses its buffer after SendMsg returned
+				// must not change what the peer receives, in either direction ----------
+				if ci == 1 {
+					ach := (&inprocgrpc.Channel{}).WithCloner(inprocgrpc.CodecCloner(rawCodec{base: codec}))
+					var hGot [][]byte
+					ach.RegisterService(hx.Desc(hx.SvcName), &hx.Svc{Stream: func(k string, ss grpc.ServerStream) error {
+						time.Sleep(30 * time.Millisecond) // a slow receiver: the request sits in the queue
+						for {
+							m := &RawMsg{}
+							if err := ss.RecvMsg(m); err != nil {
+								break
+							}
+							hGot = append(hGot, m.B)
+						}
+						buf := []byte("response-one")
+						out := &RawMsg{B: buf}
+						if err := ss.SendMsg(out); err != nil {
+							return err
+						}
+						copy(buf, "RESPONSE-TWO") // the handler reuses its buffer for the next message
+						return ss.SendMsg(out)
+					}})
+					ctx, cancel := context.WithTimeout(context.Background(), 3*time.Second)
+					cs, err := ach.NewStream(ctx, hx.StreamDescOf("BD"), "/verif.Svc/BD")
+					iso := err == nil
+					var cGot []string
+					if iso {
+						buf := []byte("request-one")
+						cs.SendMsg(&RawMsg{B: buf})
+						copy(buf, "SCRIBBLED!!") // the caller reuses its buffer once SendMsg has returned
+						cs.CloseSend()
+						time.Sleep(60 * time.Millisecond) // a slow receiver here too
+						for {
+							m := &RawMsg{}
+							if e := cs.RecvMsg(m); e != nil {
+								break
+							}
+							cGot = append(cGot, string(m.B))
+						}
+						runtime.KeepAlive(cs)
+						iso = len(hGot) == 1 && string(hGot[0]) == "request-one" && fmt.Sprint(cGot) == "[response-one RESPONSE-TWO]"
+					}
+					cancel()
+					var hs []string
+					for _, b := range hGot {
+						hs = append(hs, string(b))
+					}
+					d := map[string]interface{}{"cloner": "codec cloner over a pass-through codec (Marshal returns the message's own bytes)", "rpc": "BD; both sides reuse their buffer after SendMsg returned, both receive late", "handler_received": hs, "caller_received": cGot, "isolated": iso}
+					o.Case("stream_aliasing_codec", fmt.Sprintf("Iso %d %s false %s true", ci, hx.Str("stream, aliasing codec"), hx.B(iso)), d)
+				}
 				// ---------- a receive whose copy FAILS (a destination of another message type) reports the failure:
 				// "overwritten" or an error, never success with the destination left as it was.  Single-response and
 				// streaming receives.  (Not through the codec cloner: other types' bytes may parse, finding F20.) ----------
